@@ -267,8 +267,41 @@ def foreign_host_encoding_scenario(ctx: Ctx) -> None:
                               f"{dst} is not byte-identical to the shipped {rf} when the default text encoding is ISO-8859-1")
 
 
+def postprocessed_scenario(ctx: Ctx) -> None:
+    """The default mode: post-processing ON (ruff fixes imports and reformats every file it is handed, in child processes).
+    The runtime modules in the core must STILL be the shipped bytes, and the package must still be self-contained."""
+    import subprocess
+    from . import c10
+
+    rec = ctx.rec
+    root = ctx.scratch.new("ppcore")
+    d = specgen.generate(ctx.rng, prof={"schemas": (2, 4), "ops": (2, 3)})
+    spec = genrun.write_spec(d.doc, root / "spec")
+    for pkg, core in (("client_pp", None), ("acme.client_pp", "acme.shared_pp.core")):
+        case = {"scenario": "postprocessed", "layout": [pkg, core], "doc": d.doc}
+        try:
+            r = subprocess.run(c10.cli_cmd(spec, str(root), pkg, core, True), cwd=str(root), env=c10.cli_env(ctx), capture_output=True, text=True, timeout=900)
+        except subprocess.TimeoutExpired:
+            rec.inconclusive.append("post-processed generation hit the watchdog")
+            continue
+        rec.case(case, nontrivial=True)
+        rec.count("postprocessed_generations")
+        if r.returncode != 0:
+            rec.count("generations_rejected")
+            continue
+        core_dir = root.joinpath(*(core or pkg + ".core").split("."))
+        for rf in RUNTIME:
+            rec.count("runtime_files_compared")
+            src, dst = common.REPO_SRC / "pyopenapi_gen" / "core" / rf, core_dir / rf
+            if not dst.exists() or dst.read_bytes() != src.read_bytes():
+                rec.violation(f"runtime:bytes_differ_after_postprocessing:{rf}", ["always", "postprocess_on"], case,
+                              f"{dst} is not byte-identical to the shipped {rf} after the default post-processing")
+
+
 def run_shard(ctx: Ctx) -> None:
     common.use_repo()
+    if ctx.shard in (2, 3) or not ctx.quick:
+        postprocessed_scenario(ctx)
     stale_core_scenario(ctx, ctx.shard)
     if ctx.shard < 2:
         foreign_host_encoding_scenario(ctx)
@@ -288,6 +321,9 @@ def replay(ctx: Ctx, file: dict) -> None:
     c = file["case"]
     if c.get("scenario") == "foreign_host_encoding":
         foreign_host_encoding_scenario(ctx)
+        return
+    if c.get("scenario") == "postprocessed":
+        postprocessed_scenario(ctx)
         return
     if c.get("scenario") == "stale_core":
         stale_core_scenario(ctx, 0)
